@@ -389,4 +389,9 @@ def run(tier):
                         "processNewEstimate in user code could write zeros: only the hooks defined by the library are analysed",
                         "entry of solveNonLinearSystem2 with iter != iterMax is established at its in-library call sites",
                         "convergence rates and the quality of the Broyden / dog-leg / Levenberg-Marquardt corrections are not decided"]
+    # NORM-PROPAGATES: the residual norm is non-finite as soon as one component is (rules/ieeeclass.py, IR interpreted over IEEE classes)
+    import ieeeclass
+    ieeeclass.norm_rule(rep)
+    if tier == "thorough":
+        ieeeclass.norm_rule(rep, "-O1")
     return rep
